@@ -91,13 +91,19 @@ def main(argv=None):
         print("... %d more notes" % (len(total.notes) - 3))
     reported = {}  # signature -> record
     known_hit = {}
+    nonrepro = 0
     kn = {e["id"]: e for e in known}
     for v in total.violations:
         if v.get("nondeterministic"):
-            # did not reproduce on replay: harness nondeterminism, never a VIOLATION
-            herr += 1
-            print("HARNESS-NONDETERMINISM property=%s (a raw violation did not reproduce on replay): %s"
-                  % (prop, json.dumps(v.get("raw"), default=base._json_default)[:600]))
+            # Did not reproduce when the same case was replayed in the same process: never a VIOLATION (there is
+            # no failing replay to hand over).  Counted and shown; harnesses whose subject is address-dependent by
+            # nature (MyGrad's id()-keyed lock tables: C08) declare NONREPRODUCIBLE_OK, for all others it is a
+            # harness error.
+            nonrepro += 1
+            print("NONREPRODUCIBLE property=%s (a raw violation did not reproduce on replay): %s"
+                  % (prop, json.dumps(v.get("raw"), default=base._json_default)[:400]))
+            if not getattr(H, "NONREPRODUCIBLE_OK", False):
+                herr += 1
             continue
         if v.get("known") in kn:
             known_hit.setdefault(v["known"], [kn[v["known"]], 0])[1] += 1
@@ -167,6 +173,7 @@ def main(argv=None):
         "known_findings_hit": sorted(known_hit),
         "tasks": len(plan["tasks"]),
         "time_capped": bool(total.capped),
+        "nonreproducible_raw_violations": nonrepro,
     }
     if H.LEVEL == "model_checking":
         cov["states"] = len(total.states)
